@@ -909,6 +909,11 @@ impl Operator for Matchgate {
 
         let q2 = q1 + 1; // q2 is always the next adjacent qubit.
 
+        // q2 is an implicit second target: a control qubit must not coincide with it
+        if control_qubits.contains(&q2) {
+            return Err(Error::OverlappingControlAndTargetQubits(q2, q2));
+        }
+
         let num_qubits = state.num_qubits();
         let mut new_state_vec = state.state_vector.clone();
         let gpu_enabled: bool = cfg!(feature = "gpu");
